@@ -258,8 +258,11 @@ impl CanonicalRequest {
                         pq.push_str(&qs);
                     }
 
-                    parts.uri =
-                        Uri::builder().path_and_query(pq).build().expect("failed to rebuild URI with new query string");
+                    // The merged query can exceed what the `http` crate accepts in a URI (64 KiB); that is a malformed
+                    // request, not a reason to panic.
+                    parts.uri = Uri::builder().path_and_query(pq).build().map_err(|e| {
+                        SignatureError::MalformedQueryString(format!("Failed to rebuild URI with form parameters: {}", e))
+                    })?;
                     body = Bytes::from("");
                 }
             }
